@@ -54,17 +54,23 @@ Example ex_keyword_prefix_splits :
          (BAREWORD, "index", (1, 25, 24)); (END, "", (1, 30, 29)) ]%N.
 Proof. vm_compute. reflexivity. Qed.
 
-(* DEFECT: a comment glued to a keyword is consumed by the keyword recogniser: no COMMENT
-   token exists for it (so it never reaches the comment map); after an ordinary
-   bareword the same comment is a token *)
-Example ex_comment_swallowed :
+(* FIXED in the source (commit b648ec7): a comment glued to a keyword used to be consumed by the
+   keyword recogniser (no COMMENT token, nothing in the comment map).  The recogniser now only
+   looks ahead: the comment is a token like after any other word, and the whitespace after a
+   keyword is an ordinary WS token of lex_all. *)
+Example ex_comment_after_keyword :
   show_all (b ("let//c" ++ LF ++ "x")%string) =
-  Some [ (BAREWORD, "let", (1, 1, 0)); (BAREWORD, "x", (2, 1, 7)); (END, "", (2, 2, 8)) ]%N
+  Some [ (BAREWORD, "let", (1, 1, 0)); (COMMENT, "c", (1, 4, 3)); (BAREWORD, "x", (2, 1, 7));
+         (END, "", (2, 2, 8)) ]%N
   /\
   show_all (b ("lex//c" ++ LF ++ "x")%string) =
   Some [ (BAREWORD, "lex", (1, 1, 0)); (COMMENT, "c", (1, 4, 3)); (BAREWORD, "x", (2, 1, 7));
-         (END, "", (2, 2, 8)) ]%N.
-Proof. split; vm_compute; reflexivity. Qed.
+         (END, "", (2, 2, 8)) ]%N
+  /\
+  show_all (b "let  x") =
+  Some [ (BAREWORD, "let", (1, 1, 0)); (WS, "", (1, 4, 3)); (BAREWORD, "x", (1, 6, 5));
+         (END, "", (1, 7, 6)) ]%N.
+Proof. repeat split; vm_compute; reflexivity. Qed.
 
 (* the bytes 0x85 and 0xA0 are whitespace for ascii_ws, even alone *)
 Example ex_latin1_whitespace :
